@@ -359,7 +359,9 @@ def renewOne (e : Env) (s : State) (pool : Pool) (creator msgProvider : Addr) (s
   let amount ← orderPrice order.size order.replica duration
   -- the renewal order lists only the shards it renews (the `fix:` of F12)
   let renewed := (shards.filter (fun sh => sh.status = ShardCompleted)).map (·.id)
-  let newO : Order := { order with id := 0, creator := creator, provider := msgProvider, duration := duration, amount := amount, shards := renewed,
+  -- the renewal belongs to the model's owner, who signed the request (the `fix:` of F22; before it the owner
+  -- field was copied from the order of the latest version, whose signer may be a read-write grantee)
+  let newO : Order := { order with id := 0, creator := creator, owner := md.owner, provider := msgProvider, duration := duration, amount := amount, shards := renewed,
                                    operation := 3, createdAt := toU64 s.h, timeout := toU64 timeout, unitPrice := unitPriceDec,
                                    paymentDid := 0 }
   let (s, newO, err) := renewOrder e s newO
